@@ -37,6 +37,9 @@ model/HtmlDecode.vos model/HtmlDecode.vok model/HtmlDecode.required_vos: model/H
 model/IsolationM.vo model/IsolationM.glob model/IsolationM.v.beautified model/IsolationM.required_vo: model/IsolationM.v 
 model/IsolationM.vio: model/IsolationM.v 
 model/IsolationM.vos model/IsolationM.vok model/IsolationM.required_vos: model/IsolationM.v 
+model/RegsM.vo model/RegsM.glob model/RegsM.v.beautified model/RegsM.required_vo: model/RegsM.v gen/Facts_vm.vo
+model/RegsM.vio: model/RegsM.v gen/Facts_vm.vio
+model/RegsM.vos model/RegsM.vok model/RegsM.required_vos: model/RegsM.v gen/Facts_vm.vos
 proofs/Cancel_proofs.vo proofs/Cancel_proofs.glob proofs/Cancel_proofs.v.beautified proofs/Cancel_proofs.required_vo: proofs/Cancel_proofs.v gen/Facts_vm_sites.vo model/CancelM.vo
 proofs/Cancel_proofs.vio: proofs/Cancel_proofs.v gen/Facts_vm_sites.vio model/CancelM.vio
 proofs/Cancel_proofs.vos proofs/Cancel_proofs.vok proofs/Cancel_proofs.required_vos: proofs/Cancel_proofs.v gen/Facts_vm_sites.vos model/CancelM.vos
@@ -55,6 +58,9 @@ proofs/HtmlDecode_proofs.vos proofs/HtmlDecode_proofs.vok proofs/HtmlDecode_proo
 proofs/Isolation_proofs.vo proofs/Isolation_proofs.glob proofs/Isolation_proofs.v.beautified proofs/Isolation_proofs.required_vo: proofs/Isolation_proofs.v model/IsolationM.vo
 proofs/Isolation_proofs.vio: proofs/Isolation_proofs.v model/IsolationM.vio
 proofs/Isolation_proofs.vos proofs/Isolation_proofs.vok proofs/Isolation_proofs.required_vos: proofs/Isolation_proofs.v model/IsolationM.vos
+proofs/Regs_proofs.vo proofs/Regs_proofs.glob proofs/Regs_proofs.v.beautified proofs/Regs_proofs.required_vo: proofs/Regs_proofs.v gen/Facts_vm.vo model/RegsM.vo
+proofs/Regs_proofs.vio: proofs/Regs_proofs.v gen/Facts_vm.vio model/RegsM.vio
+proofs/Regs_proofs.vos proofs/Regs_proofs.vok proofs/Regs_proofs.required_vos: proofs/Regs_proofs.v gen/Facts_vm.vos model/RegsM.vos
 props/C10.vo props/C10.glob props/C10.v.beautified props/C10.required_vo: props/C10.v gen/Facts_vm_writes.vo model/IsolationM.vo proofs/Isolation_proofs.vo model/FramesM.vo
 props/C10.vio: props/C10.v gen/Facts_vm_writes.vio model/IsolationM.vio proofs/Isolation_proofs.vio model/FramesM.vio
 props/C10.vos props/C10.vok props/C10.required_vos: props/C10.v gen/Facts_vm_writes.vos model/IsolationM.vos proofs/Isolation_proofs.vos model/FramesM.vos
@@ -64,6 +70,9 @@ props/C11.vos props/C11.vok props/C11.required_vos: props/C11.v gen/Facts_vm_sit
 props/C12.vo props/C12.glob props/C12.v.beautified props/C12.required_vo: props/C12.v gen/Facts_vm.vo model/FramesM.vo proofs/Frames_proofs.vo proofs/Frames_lifo.vo
 props/C12.vio: props/C12.v gen/Facts_vm.vio model/FramesM.vio proofs/Frames_proofs.vio proofs/Frames_lifo.vio
 props/C12.vos props/C12.vok props/C12.required_vos: props/C12.v gen/Facts_vm.vos model/FramesM.vos proofs/Frames_proofs.vos proofs/Frames_lifo.vos
+props/C14.vo props/C14.glob props/C14.v.beautified props/C14.required_vo: props/C14.v gen/Facts_vm.vo model/RegsM.vo proofs/Regs_proofs.vo
+props/C14.vio: props/C14.v gen/Facts_vm.vio model/RegsM.vio proofs/Regs_proofs.vio
+props/C14.vos props/C14.vok props/C14.required_vos: props/C14.v gen/Facts_vm.vos model/RegsM.vos proofs/Regs_proofs.vos
 props/C24.vo props/C24.glob props/C24.v.beautified props/C24.required_vo: props/C24.v lib/Bytes.vo gen/Facts_HTMLEscape.vo model/HTMLEscapeM.vo model/HtmlDecode.vo proofs/HTMLEscape_proofs.vo
 props/C24.vio: props/C24.v lib/Bytes.vio gen/Facts_HTMLEscape.vio model/HTMLEscapeM.vio model/HtmlDecode.vio proofs/HTMLEscape_proofs.vio
 props/C24.vos props/C24.vok props/C24.required_vos: props/C24.v lib/Bytes.vos gen/Facts_HTMLEscape.vos model/HTMLEscapeM.vos model/HtmlDecode.vos proofs/HTMLEscape_proofs.vos
